@@ -162,10 +162,23 @@ func init() {
 		Build: func(seed uint64, tier string) *RunConfig {
 			r := cfgRng(seed)
 			mn, mx := tierOps(tier, 6, 18)
-			rc := &RunConfig{Property: "C14", Profile: "handoff-l2", Seed: seed, Ctl: sampleCtl(r), Lagfree: r.IntN(2) == 0, MidSched: r.IntN(2) == 0}
+			ctl := sampleCtl(r)
+			ctl.Acme = true // brings the leadership seam in: the leader subscriber is a producer of reconciliations too
+			rc := &RunConfig{Property: "C14", Profile: "handoff-l2", Seed: seed, Ctl: ctl, Lagfree: r.IntN(2) == 0, MidSched: r.IntN(2) == 0}
 			w := map[string]int{"class_change": 12, "ing_create": 6, "ing_update": 10, "ing_delete": 4, "ing_ann": 6, "svc_update": 4, "ep_scale": 8, "secret_rotate": 4, "global_change": 4, "renotify": 3, "advance": 4}
 			rc.World, rc.Ops = GenerateRun(seed, GenOptions{Sparse: r.IntN(2) == 0, ExcludeIngressKeys: alwaysExcludedIngressKeys, MinOps: mn, MaxOps: mx,
 				QuiesceEvery: pickInt(r, 4, 8), KeysPerRun: 4, W: w})
+			// the lease is acquired and lost while events are pending
+			var ops []Op
+			leader := false
+			for _, op := range rc.Ops {
+				ops = append(ops, op)
+				if r.IntN(4) == 0 {
+					leader = !leader
+					ops = append(ops, Op{Type: "leader", Note: fmt.Sprint(leader)})
+				}
+			}
+			rc.Ops = ops
 			return rc
 		}})
 
